@@ -199,10 +199,68 @@ func (w *world) replayAttack() {
 
 // authAttack derives an unauthorized variant of an honest transaction.
 func (w *world) authAttack(g *genTx) {
+	bz, kind := w.authVariant(g, w.c.T.Intn(5))
+	if g != nil && g.tx != nil && lib.IsRLPMemo(g.tx.Memo) && w.c.T.Chance(1, 2) {
+		bz, kind = w.rlpKeySwap(g)
+	}
+	if bz == nil {
+		return
+	}
+	w.mustFail[string(bz)] = "C05|unauthorized-" + kind
+	w.c.Fault("auth_" + kind)
+	w.submitRaw(bz, "UNAUTHORIZED("+kind+") variant of: "+g.desc)
+}
+
+// authCombo hands one batch to the mempools: a validly signed but unauthorized transaction, a
+// transaction carrying the victim's key with a forged signature, and honest transactions after
+// them - the order in which per-transaction verdicts of a batch verifier could be misattributed.
+func (w *world) authCombo(gs []*genTx) {
+	c := w.c
+	var batch [][]byte
+	desc := ""
+	for i, g := range gs {
+		if g == nil {
+			continue
+		}
+		switch i {
+		case 0, 1:
+			bz, kind := w.authVariant(g, []int{0, 3}[i])
+			if bz == nil {
+				continue
+			}
+			w.mustFail[string(bz)] = "C05|unauthorized-" + kind
+			c.Fault("auth_" + kind)
+			batch = append(batch, bz)
+			desc += "[" + kind + " of " + g.desc + "] "
+			if c.T.Chance(1, 2) {
+				batch = append(batch, g.bz)
+				desc += "[" + g.desc + "] "
+			}
+		default:
+			batch = append(batch, g.bz)
+			desc += "[" + g.desc + "] "
+		}
+	}
+	if len(batch) < 2 {
+		return
+	}
+	nOK := 0
+	for _, n := range w.upNodes() {
+		w.focus(n)
+		if err := n.ctl.Mempool.HandleTransactions(batch...); err == nil {
+			nOK++
+		}
+	}
+	w.txSeq++
+	c.Fault("auth_batch_combo")
+	c.Logf("tx#%d BATCH %s(accepted by %d mempools)", w.txSeq, desc, nOK)
+}
+
+func (w *world) authVariant(g *genTx, which int) ([]byte, string) {
 	c := w.c
 	t := c.T
 	if g == nil || g.tx == nil || g.tx.Signature == nil {
-		return
+		return nil, ""
 	}
 	clone := func() *lib.Transaction {
 		bz, _ := lib.Marshal(g.tx)
@@ -213,27 +271,27 @@ func (w *world) authAttack(g *genTx) {
 	attacker := w.pickActor(func(a *actor) bool { return !a.isVal && a != g.from && a.kind != "bls" })
 	x := clone()
 	kind := ""
-	switch t.Intn(5) {
+	switch which {
 	case 0: // signed by a key that owns nothing in the message
 		sb, err := x.GetSignBytes()
 		if err != nil {
-			return
+			return nil, ""
 		}
 		x.Signature = &lib.Signature{PublicKey: attacker.key.PublicKey().Bytes(), Signature: attacker.key.Sign(sb)}
 		kind = "signed-by-unrelated-key"
 	case 1: // tamper the message after signing (redirect / inflate)
 		if x.MessageType != fsm.MessageSendName {
-			return
+			return nil, ""
 		}
 		m := new(fsm.MessageSend)
 		if x.Msg.UnmarshalTo(m) != nil {
-			return
+			return nil, ""
 		}
 		m.ToAddress = attacker.addr
 		m.Amount++
 		a, err := lib.NewAny(m)
 		if err != nil {
-			return
+			return nil, ""
 		}
 		x.Msg = a
 		kind = "message-tampered-after-signing"
@@ -253,26 +311,25 @@ func (w *world) authAttack(g *genTx) {
 		kind = "forged-signature-under-victims-key"
 	default: // transplant: the victim's signature from this transaction onto a different message
 		if x.MessageType != fsm.MessageSendName {
-			return
+			return nil, ""
 		}
 		m := &fsm.MessageSend{FromAddress: g.from.addr, ToAddress: attacker.addr, Amount: 1}
 		a, err := lib.NewAny(m)
 		if err != nil {
-			return
+			return nil, ""
 		}
 		x.Msg = a
 		kind = "signature-transplanted-onto-other-message"
 	}
 	bz, err := lib.Marshal(x)
 	if err != nil {
-		return
+		return nil, ""
 	}
 	if bytes.Equal(bz, g.bz) {
-		return
+		return nil, ""
 	}
-	w.mustFail[string(bz)] = "C05|unauthorized-" + kind
-	c.Fault("auth_" + kind)
-	w.submitRaw(bz, "UNAUTHORIZED("+kind+") variant of: "+g.desc)
+	_ = c
+	return bz, kind
 }
 
 func (w *world) submitRaw(bz []byte, desc string) {
@@ -296,6 +353,18 @@ func (w *world) checkIncluded(height uint64, txs [][]byte) {
 		if why, bad := w.mustFail[string(tx)]; bad {
 			prop, sig := why[:3], why[4:]
 			c.ReportFor(prop, "must-fail-transaction-executed", sig, fmt.Sprintf("block %d contains (as a successful transaction) %s", height, w.describeBad(tx, sig)))
+		}
+		// nonce-backed transactions: per signer the nonces of executed transactions strictly increase
+		if x := new(lib.Transaction); lib.Unmarshal(tx, x) == nil && x.Memo == lib.RLPV2Indicator && x.Signature != nil {
+			k := string(x.Signature.PublicKey)
+			if last, ok := w.lastNonce[k]; ok && x.Nonce <= last {
+				c.ReportFor("C06", "at-most-once", "nonce-used-twice", fmt.Sprintf("block %d executes a nonce-backed transaction with nonce %d; the same signer already executed nonce %d", height, x.Nonce, last))
+			}
+			if w.lastNonce == nil {
+				w.lastNonce = map[string]uint64{}
+			}
+			w.lastNonce[k] = x.Nonce
+			c.Probe("rlp_v2_transaction_executed")
 		}
 		// any two included byte strings with the same signed content are a replay, whoever produced them
 		h := crypto.HashString(canonical(tx))
